@@ -143,10 +143,22 @@ def num(w):
     return w
 
 
+BUILTIN_TEXT = {'TypeError', 'AttributeError', 'IndexError', 'KeyError', 'NameError'}
+
+
+def probe_msg(m):
+    return isinstance(m, str) and (m.startswith('boom ') or m in ('bad thing', "it's", 'x {k1} y'))
+
+
+def builtin_text(entry):
+    """CPython's own message texts for these classes are not claimed by the model."""
+    return entry.get('name') in BUILTIN_TEXT and not probe_msg(entry.get('msg', entry.get('description')))
+
+
 def norm_msgs(model, impl):
     """Messages the model marks with a leading '~' are not claimed: copy the implementation's text."""
     def fix_entry(me, ie, key):
-        if isinstance(me.get(key), str) and me[key].startswith('~'):
+        if isinstance(me.get(key), str) and (me[key].startswith('~') or builtin_text(me)):
             me[key] = ie.get(key)
     mo, io = model.get('outcome'), impl.get('outcome')
     if isinstance(mo, dict) and isinstance(io, dict) and 'err' in mo and 'err' in io:
@@ -158,7 +170,8 @@ def norm_msgs(model, impl):
                 (canon_key(k), i) for i, (k, _) in enumerate(b['d']))
             if 'description' in da and 'description' in db:
                 va = a['d'][da['description']][1]
-                if isinstance(va, str) and va.startswith('~'):
+                nm = a['d'][da['name']][1] if 'name' in da else None
+                if isinstance(va, str) and (va.startswith('~') or (nm in BUILTIN_TEXT and not probe_msg(va))):
                     a['d'][da['description']][1] = b['d'][db['description']][1]
 
 
@@ -274,7 +287,7 @@ class Impl:
             trace.append({'tag': ev['tag'], 'i': ov(ev['i']), 'w': ov(ev['w']), 'r': ov(ev['r']),
                           'nerr': ev['nerr'], 'pipe': pipe, 'depth': ev['depth'],
                           'keys': [[k, ov(v)] for k, v in ev['keys']]})
-        obs = {'trace': trace, 'sleeps': [float(x) for x in self.sleeps], 'outcome': outcome, 'ctx': ctxw,
+        obs = {'trace': trace, 'sleeps': [float(x) if isinstance(x, (int, float)) else repr(x) for x in self.sleeps], 'outcome': outcome, 'ctx': ctxw,
                'returned_ctx': ret is not None,
                'stack': [p.name for p in ctx._stack] if ctx is not None else []}
         if not keep:
@@ -285,7 +298,15 @@ class Impl:
         return renumber(obs)
 
 
+def prepare(prog):
+    """Assign line/col to every complex step (idempotent)."""
+    for pipe in prog['pipes']:
+        render_pipe(pipe)
+    return prog
+
+
 def model_run(driver, prog, fuel=3000):
+    prepare(prog)
     req = strip_for_model(prog)
     obs = driver.ask('flow.run', pipes=req['pipes'], run=req['run'], rnd=req.get('rnd', []), fuel=fuel)
     obs['sleeps'] = [float(num(x)) for x in obs['sleeps']]
